@@ -22,7 +22,7 @@ def run(ctx):
              or os.environ.get("VERIF_C36_FIXED") == "1")
     as_coded = not fixed   # named deviation switch CheckThenAct: on while the code inserts without re-testing the limits
     # (universe, (MaxIn, MaxPerIp, MaxOut), also model-check the fine-grained design / as-coded variants)
-    configs = [("ConnsQ", (2, 1, 1), True), ("ConnsQ2", (2, 1, 1), False)]
+    configs = [("ConnsQ", (2, 1, 1), True), ("ConnsQ2", (2, 1, 1), False), ("ConnsQ3", (2, 2, 1), False)]
     if ctx.thorough:
         configs += [("ConnsQ", (2, 2, 1), False), ("ConnsT", (2, 1, 1), True), ("ConnsT2", (3, 2, 1), False)]
     seen_names, seen_results = set(), set()
@@ -34,7 +34,7 @@ def run(ctx):
         tag = "%s-%d%d%d" % (conns, lim[0], lim[1], lim[2])
         # two dials to one address can both be established in the fine-grained models (stale hasBoundAddr), so the
         # bookkeeping invariant is claimed for the fine-grained runs only where remote addresses are pairwise distinct
-        book = ["Book"] if conns == "ConnsQ" else []
+        book = (["Book"] if conns == "ConnsQ" else []) + ["LiveCounted"]
         if full:
             # -- MC 1: intended design, every critical section its own step: Limits must be an invariant
             r = cc.tlc(ctx, tag + "-design", conns, lim, False, True, ["TypeOK", "Limits"] + book, False)
@@ -56,7 +56,7 @@ def run(ctx):
                 if r.status != "ok":
                     ctx.infra("as-coded fine-grained model (full exploration): %s %s" % (r.status, r.errors[:2]))
         # -- MC 3 + edge export at the granularity the harness can force
-        inv = ["TypeOK", "Book"] + ([] if as_coded else ["Limits"])
+        inv = ["TypeOK", "Book", "LiveCounted"] + ([] if as_coded else ["Limits"])
         r = cc.tlc(ctx, tag + "-replay", conns, lim, as_coded, False, inv, True)
         if r.status != "ok":
             ctx.infra("replay model: %s %s %s" % (r.status, r.violated, r.errors[:2]))
